@@ -6,7 +6,7 @@ CONSTANTS
   Header = "first"
   Merge = "grid"
   MaxSpecial = 2
-  FullCells = 6
+  FullCells = 4
 INVARIANTS TypeOK RoundTrip HeadingLevelOK
 PROPERTIES PrefixStable Terminates
 CONSTRAINT EmitCase
